@@ -292,6 +292,39 @@ def run(rep, tier, seed):
                           "an undeclared id would select a declared class",
                           {"kind": "impl-trace", "helper": helper, "ids": wire_ids, "looked_up": got})
 
+    # ... and on the way out: the id on the wire is the declared id of the class sent, whatever its payload size and whatever was
+    # written before (sizes a byte, two bytes and more than two bytes of length apart: n, 256 + n, 16384 + n, 65536 + n)
+    from unittest.mock import MagicMock
+    from aioesphomeapi._frame_helper.plain_text import APIPlaintextFrameHelper
+    from vlib import simnet as _simnet
+    h = APIPlaintextFrameHelper(connection=MagicMock(), client_info="x", log_name="x")
+    tr = MagicMock()
+    out_writes = []
+    tr.write.side_effect = lambda d: out_writes.append(bytes(d))
+    h.connection_made(tr)
+    seq = []
+    for t in sorted(proto_ids)[::11] + [top - 1]:
+        for n in (0, 7, 200):
+            for big in (256, 16384, 65536):
+                seq += [(t + 1, n), (t, big + n), (t, n), (t + 1, big + n), (t, big + n)]
+    bad = None
+    for ty, n in seq:
+        del out_writes[:]
+        payload = bytes([ty & 255]) * n
+        h.write_packets([(ty, payload)], False)
+        try:
+            fr = _simnet.decode_plain_stream(b"".join(out_writes))
+        except Exception as e:  # noqa: BLE001
+            fr = [("undecodable", str(e))]
+        if fr != [(ty, payload)]:
+            bad = (ty, n, [(a, len(b) if isinstance(b, bytes) else b) for a, b in fr][:3])
+            break
+    rep.case(("sent-wire-id",), True, sample={"sent_wire_ids": len(seq)})
+    rep.bump("sent-wire-id")
+    if bad:
+        rep.violation("C13/sent-wire-id", f"a message with declared id {bad[0]} and a {bad[1]}-byte payload, written after other messages, went out as (id, length) {bad[2]}: "
+                      "the wire id is not the declared id of the class sent", {"kind": "impl-trace", "sequence": seq[:40], "first_bad": [bad[0], bad[1]]})
+
     # 3. API sweep (validates gen_clientapi and checks direction on what is really sent / subscribed)
     try:
         entries, _unacc = gen_clientapi.extract()
